@@ -9,7 +9,12 @@ Part B states them for the executable list model `dsTransform` / `tfMaybeGraft` 
 ordered field with a square-root function meeting `SqrtSpec` (at ℝ: `Real.sqrt`, no residual hypothesis), for
 every vector length, step, start step and configuration.
 
-Part C: closed forms of the graft accumulators by induction over the gradient history.
+It also characterises the exclusion predicates (`ds_skip_iff`, `tearfree_mask_iff`) and the composed one-leaf Tearfree
+update `tfTransform` the driver folds over a history (`tearfree_transform_list`).
+
+Part C: closed forms of the graft accumulators and of the AdaGrad / RMSProp graft steps by induction over the gradient
+history. (The normalised variants, SQRT_N and the clipped RMSProp step are executable definitions compared with the
+code by the harness; ADAFACTOR is optax's and stays opaque: only the norm transplant around it is proved.)
 
 Gap (stated, not hidden): after the start step the norm of a Distributed Shampoo update is
 `‖graft‖·‖p‖/(‖p‖+ε)` with `ε = _EPSILON = 1e-25`, i.e. strictly below `‖graft‖` (`ds_graft_norm_strict`);
@@ -227,6 +232,50 @@ theorem tearfree_graft_exact_list {sqrt : α → α} (hs : SqrtSpec sqrt) (count
   · intro hc masked; exact tfMaybeGraftG_warmup count start masked hc g b
   · exact tfMaybeGraftG_masked count start g b
 
+/-- The executable one-leaf Tearfree update (`tfTransform`, momentum and weight decay off): before the start step
+and for masked leaves it is `-lr` times the graft optimizer's step; from the start step on, for an unmasked leaf
+with non-zero second-order update `b`, it is a multiple of `b` whose norm is `|lr|` times the graft step's norm;
+and it is the zero vector (`b` itself scaled) when `b` is zero. -/
+theorem tearfree_transform_list {sqrt : α → α} (hs : SqrtSpec sqrt) (gt : TFGraftType) (decay eps lr : α)
+    (count start : Nat) (g acc b : List α) :
+    let gs := (tfGraftStep sqrt gt decay eps acc g).1
+    (count < start → ∀ masked, (tfTransform sqrt gt decay eps lr count start masked g acc b).1 = tfFinal lr gs) ∧
+    (tfTransform sqrt gt decay eps lr count start true g acc b).1 = tfFinal lr gs ∧
+    (start ≤ count → 0 < norm sqrt b →
+      norm sqrt (tfTransform sqrt gt decay eps lr count start false g acc b).1 = |lr| * norm sqrt gs ∧
+      (tfTransform sqrt gt decay eps lr count start false g acc b).1
+        = scale (-(lr * (norm sqrt gs / norm sqrt b))) b) ∧
+    (start ≤ count → (∀ x ∈ b, x = 0) →
+      (tfTransform sqrt gt decay eps lr count start false g acc b).1 = b) := by
+  intro gs
+  have hfin : ∀ v : List α, tfFinal lr v = scale (-1 * lr) v := fun v => rfl
+  refine ⟨?_, ?_, ?_, ?_⟩
+  · intro hc masked
+    show tfFinal lr (tfMaybeGraft sqrt count start masked gs b) = _
+    rw [(tearfree_graft_exact_list hs count start gs b).2.2.1 hc masked]
+  · show tfFinal lr (tfMaybeGraft sqrt count start true gs b) = _
+    rw [(tearfree_graft_exact_list hs count start gs b).2.2.2]
+  · intro hc hb
+    constructor
+    · show norm sqrt (tfFinal lr (tfMaybeGraft sqrt count start false gs b)) = _
+      rw [hfin, norm_scale hs, (tearfree_graft_exact_list hs count start gs b).1 hc hb]
+      simp
+    · show tfFinal lr (tfMaybeGraft sqrt count start false gs b) = _
+      unfold tfMaybeGraft tfMaybeGraftG
+      simp only [Bool.false_eq_true, if_false, if_pos hc]
+      show tfFinal lr (scale (tfMultiplier (norm sqrt gs) (norm sqrt b)) b) = _
+      rw [tfMultiplier_pos hb]
+      unfold tfFinal scale
+      rw [List.map_map]
+      apply List.map_congr_left
+      intro x _
+      simp only [Function.comp]
+      ring
+  · intro hc hz
+    show tfFinal lr (tfMaybeGraft sqrt count start false gs b) = _
+    rw [(tearfree_graft_exact_list hs count start gs b).2.1 hc hz, hfin]
+    exact scale_of_all_zero _ hz
+
 end ListModel
 
 /-! Non-vacuity at ℝ with `Real.sqrt`: no residual hypothesis. -/
@@ -239,6 +288,34 @@ example (c : DSConfig ℝ) (nc : Nat → ℝ) (step : Nat) (g acc precond : List
 
 example : ∃ c : DSConfig ℝ, c.graftType ≠ .none ∧ 0 ≤ c.eps ∧ c.start ≤ 3 :=
   ⟨⟨.adagrad, 1, 1e-10, 1e-25, 1/2, true, none, 2⟩, by decide, by norm_num, by norm_num⟩
+
+/-- `_skip_preconditioning`: exactly the parameters of rank below the threshold or with a dimension above the limit. -/
+theorem ds_skip_iff (rankLt dimGt : Nat) (shape : List Nat) :
+    dsSkip rankLt dimGt shape = true ↔ shape.length < rankLt ∨ ∃ s ∈ shape, dimGt < s := by
+  simp [dsSkip, List.any_eq_true]
+
+/-- Tearfree `_mask_skipped`. -/
+theorem tearfree_mask_iff (rank1 : Bool) (anyDimGt : Nat) (shape : List Nat) :
+    tfMaskSkipped rank1 anyDimGt shape = true ↔
+      (rank1 = true ∧ shape.length ≤ 1) ∨ ∃ s ∈ shape, anyDimGt < s := by
+  simp [tfMaskSkipped, List.any_eq_true]
+
+example : dsSkip 2 4096 [5] = true ∧ dsSkip 1 4096 [5] = false ∧ dsSkip 1 8 [9, 4] = true ∧
+    tfMaskSkipped true 4096 [5] = true ∧ tfMaskSkipped false 4096 [5] = false ∧ tfMaskSkipped false 5 [6, 2] = true := by
+  decide
+
+/-- Non-vacuity of `tearfree_transform_list` at ℝ: SGD graft `g = (3,4)`, second-order update `b = (0,-2)`, `lr = 1/2`:
+the update has norm `|lr|·‖g‖`. -/
+example : norm Real.sqrt (tfTransform Real.sqrt .sgd (0 : ℝ) 0 (1 / 2) 3 1 false [3, 4] [0, 0] [0, -2]).1
+    = |(1 / 2 : ℝ)| * norm Real.sqrt [3, 4] := by
+  have hb : 0 < norm Real.sqrt [(0 : ℝ), -2] := by
+    have h0 := norm_nonneg' realSqrtSpec [(0 : ℝ), -2]
+    rcases h0.lt_or_eq with h | h
+    · exact h
+    · have := (norm_eq_zero_iff realSqrtSpec [(0 : ℝ), -2]).mp h.symm (-2) (by simp)
+      norm_num at this
+  exact ((tearfree_transform_list realSqrtSpec .sgd (0 : ℝ) 0 (1 / 2) 3 1 [3, 4] [0, 0] [0, -2]).2.2.1
+    (by norm_num) hb).1
 
 /-! ## Part C — accumulator closed forms (every history length, every coordinate) -/
 section Closed
@@ -305,6 +382,31 @@ theorem adagrad_step_closed_form {α : Type} [Field α] [LinearOrder α] [IsStri
   rw [hc]
   simp only [hacc, diagStep]
   rw [List.getElem?_zipWith, hx, adagrad_acc_closed_form i (hist ++ [g]) acc0 a0 h0 hl]
+
+/-- Closed form of the RMSProp graft step of Distributed Shampoo (no clipping) after the history `hist` followed by the
+current gradient `g`, coordinate `i`: `g[i] / (sqrt(β^T·a₀ + w₂·Σ_k β^(T-1-k)·g_k[i]²) + diagonal_epsilon)` with
+`w₂ = dsW2 β` (`1` for `β = 1`, else `1 - β`). -/
+theorem rmsprop_step_closed_form {α : Type} [Field α] [LinearOrder α] [IsStrictOrderedRing α]
+    (sqrt : α → α) (nc : Nat → α) (c : DSConfig α) (hc : c.graftType = .rmsprop) (hcl : c.clip = none) (i : Nat)
+    (hist : List (List α)) (g acc0 : List α) (a0 : α) (h0 : acc0[i]? = some a0)
+    (hl : ∀ g' ∈ hist ++ [g], i < g'.length) :
+    (dsGraftStep sqrt nc c g (accRun c.beta2 (dsW2 c.beta2) acc0 hist)).1[i]? = some
+      (g.getD i 0 /
+        (sqrt (c.beta2 ^ (hist ++ [g]).length * a0
+          + dsW2 c.beta2 * ∑ k ∈ Finset.range (hist ++ [g]).length,
+              c.beta2 ^ ((hist ++ [g]).length - 1 - k) * (((hist ++ [g]).getD k []).getD i 0) ^ 2)
+          + c.diagEps)) := by
+  have hacc : accStep c.beta2 (dsW2 c.beta2) (accRun c.beta2 (dsW2 c.beta2) acc0 hist) g
+      = accRun c.beta2 (dsW2 c.beta2) acc0 (hist ++ [g]) := by
+    simp [accRun, List.foldl_append]
+  have hi : i < g.length := hl g (by simp)
+  have hx : g[i]? = some (g.getD i 0) := by
+    rw [List.getD_eq_getElem?_getD, List.getElem?_eq_getElem hi]; simp
+  unfold dsGraftStep
+  rw [hc]
+  simp only [hacc, diagStep, hcl]
+  rw [List.getElem?_zipWith, hx,
+    rmsprop_acc_closed_form c.beta2 (dsW2 c.beta2) i (hist ++ [g]) acc0 a0 h0 hl]
 
 example : (accRun (1 : ℚ) 1 [0, 0] [[1, 2], [3, 4]])[1]? = some (0 + (2 ^ 2 + 4 ^ 2)) := by
   rw [adagrad_acc_closed_form 1 [[1, 2], [3, 4]] [0, 0] 0 rfl (by decide)]
